@@ -136,7 +136,7 @@ pub trait Same {
     fn same_as(&self, o: &Self) -> bool;
 }
 macro_rules! same_eq { ($($t:ty),*) => {$( impl Same for $t { fn same_as(&self, o: &Self) -> bool { self == o } } )*}; }
-same_eq!(u8, u16, u32, u64, usize, i8, i16, i32, i64, isize, bool, char, Pod1, Pod2, Unit0, (), String, UErr, *const u8, *mut u32);
+same_eq!(u8, u16, u32, u64, usize, i8, i16, i32, i64, isize, bool, char, Pod1, Pod2, Unit0, (), String, UErr, LErr, *const u8, *mut u32);
 impl Same for f64 { fn same_as(&self, o: &Self) -> bool { self.to_bits() == o.to_bits() } }
 impl Same for f32 { fn same_as(&self, o: &Self) -> bool { self.to_bits() == o.to_bits() } }
 impl<T: Same> Same for Option<T> {
@@ -373,6 +373,33 @@ pub fn dig_slice<T: Val>(s: &[T], h: &mut Fnv) {
 
 pub fn gen<T: Val>(seed: u64) -> T {
     T::gen(&mut Gen::new(seed))
+}
+
+/// an error type whose integer coding is LOSSY (only `code` survives): it may only travel in full,
+/// as the Err of a plain `Result` (CResult), never integer-coded
+#[repr(C)]
+#[derive(Clone, Copy, PartialEq, Debug)]
+pub struct LErr {
+    pub code: i32,
+    pub extra: u32,
+}
+impl cglue::result::IntError for LErr {
+    fn into_int_err(self) -> std::num::NonZeroI32 {
+        std::num::NonZeroI32::new(self.code).unwrap_or(std::num::NonZeroI32::new(-9).unwrap())
+    }
+    fn from_int_err(e: std::num::NonZeroI32) -> Self {
+        LErr { code: e.get(), extra: 0 }
+    }
+}
+impl Val for LErr {
+    fn gen(g: &mut Gen) -> Self {
+        let c = g.int(32) as i32;
+        LErr { code: if c == 0 { -9 } else { c }, extra: (g.int(32) as u32) | 1 }
+    }
+    fn dig(&self, h: &mut Fnv) {
+        h.u64(self.code as u64);
+        h.u64(self.extra as u64);
+    }
 }
 
 /// result aliases, named in `#[int_result(Alias)]`
